@@ -44,6 +44,42 @@ theorem fetch_returns_only_verified (t : Target) (n : Nat) (f : File) (outs : Li
 
 example : (fetch ⟨some 5, true⟩ 1 .missing [⟨.present 5 true, false⟩]).result = .returned := by decide
 
+/-- **… and the returned file is one an attempt really "left"**, also for targets that state no size or no
+checksum at all (where `Verified` alone says little): the file at the returned path is never empty unless a
+size of 0 is stated, and it is either the initial file — then no fetch command was run — or the file written
+by the *last* executed run, and that outcome is `Acceptable` (for a target without checksums: the run exited
+0).  So the loop stops early only on an acceptable file; it never hands out a file that `_verify` rejects. -/
+theorem fetch_returned_file_acceptable (t : Target) (n : Nat) (f : File) (outs : List Outcome)
+    (h : (fetch t n f outs).result = .returned) :
+    (t.size.isSome = true ∨ File.nonEmpty (fetch t n f outs).final = true) ∧
+    (((fetch t n f outs).steps = [] ∧ (fetch t n f outs).final = f ∧ Acceptable t ⟨f, true⟩ = true) ∨
+      ∃ s, (fetch t n f outs).steps.getLast? = some s ∧ (fetch t n f outs).final = s.out.file ∧
+        Acceptable t s.out = true) := by
+  have he := (fetch_end t n f outs).1 (by rw [h]; decide)
+  have hv : verify t (lastLeft f (fetch t n f outs).steps) = .ok := by
+    have := he.1; rw [h] at this
+    cases hx : verify t (lastLeft f (fetch t n f outs).steps) <;> simp [hx, V.toResult] at this ⊢
+  rw [he.2]
+  refine ⟨((verify_ok_iff _ _).1 hv).2, ?_⟩
+  rcases lastLeft_getLast f (fetch t n f outs).steps with ⟨h0, hl⟩ | ⟨s, hs, hl⟩
+  · left
+    refine ⟨h0, hl, ?_⟩
+    rw [hl] at hv
+    rw [← verify_left_ok_iff]; simpa [leftOf] using hv
+  · right
+    have hsp := fetch_steps_spec t n f outs s (List.mem_of_getLast? hs)
+    have hacc : Acceptable t s.out = true := by
+      rw [← verify_left_ok_iff, ← hsp.2.2.1, ← hl]; exact hv
+    refine ⟨s, hs, ?_, hacc⟩
+    rw [hl, hsp.2.2.1]
+    unfold leftOf
+    split
+    · rename_i hc; rw [hl, hsp.2.2.1, leftOf, if_pos hc] at hv; simp [verify] at hv
+    · rfl
+
+example : (fetch ⟨none, false⟩ 3 .missing [⟨.present 0 true, true⟩, ⟨.present 7 true, true⟩]).result = .returned ∧
+    (fetch ⟨none, false⟩ 3 .missing [⟨.present 0 true, true⟩, ⟨.present 7 true, true⟩]).final = .present 7 true := by decide
+
 /-- **a fetch returns whenever some attempt leaves a verified file** — also the very last allowed one
 (this is what failed before the `fix:` commit), also when the fetch command exits non-zero
 (checksums are trusted, not the exit status), also when the file was already there. -/
